@@ -38,6 +38,13 @@ type verifModule struct {
 	tableMin  int // -1: none
 	elems     []uint32 // function indices placed at table offset 0
 	imports   []verifImport
+	exports   []verifExport
+	memNoMax  bool
+	tableMax  int    // -1 / 0: none
+	dataAt    []byte // active data segment: offset const expr (without end); nil: none
+	data      []byte
+	startFn   int // -1 or 0: none ... uses hasStart
+	hasStart  bool
 }
 
 type verifGlobal struct {
@@ -49,6 +56,21 @@ type verifGlobal struct {
 type verifImport struct {
 	module, name    string
 	params, results []byte
+	kind            byte   // 0 func (default), 1 table, 2 memory, 3 global
+	desc            []byte // raw descriptor for kinds 1..3 (limits / limits / valtype+mut)
+}
+
+type verifExport struct {
+	name  string
+	kind  byte // 1 table, 2 memory, 3 global
+	index uint32
+}
+
+func vLimits(min uint32, max int) []byte {
+	if max < 0 {
+		return append([]byte{0x00}, vU32(min)...)
+	}
+	return append(append([]byte{0x01}, vU32(min)...), vU32(uint32(max))...)
 }
 
 func vU32(v uint32) []byte { return leb128.EncodeUint32(v) }
@@ -75,7 +97,12 @@ func (m *verifModule) encode() []byte {
 	out := []byte{0x00, 0x61, 0x73, 0x6d, 0x01, 0x00, 0x00, 0x00}
 	// types: one per import then one per function
 	var types [][]byte
+	nFuncImports := 0
 	for _, im := range m.imports {
+		if im.kind != 0 {
+			continue
+		}
+		nFuncImports++
 		types = append(types, append(append([]byte{0x60}, vBytes(im.params)...), vBytes(im.results)...))
 	}
 	for _, f := range m.funcs {
@@ -84,25 +111,38 @@ func (m *verifModule) encode() []byte {
 	out = append(out, vSection(1, vVec(types...))...)
 	if len(m.imports) > 0 {
 		var ims [][]byte
-		for i, im := range m.imports {
+		fi := 0
+		for _, im := range m.imports {
 			e := append(vName(im.module), vName(im.name)...)
-			e = append(e, 0x00)
-			e = append(e, vU32(uint32(i))...)
+			if im.kind == 0 {
+				e = append(e, 0x00)
+				e = append(e, vU32(uint32(fi))...)
+				fi++
+			} else {
+				e = append(e, im.kind)
+				e = append(e, im.desc...)
+			}
 			ims = append(ims, e)
 		}
 		out = append(out, vSection(2, vVec(ims...))...)
 	}
 	var fidx [][]byte
 	for i := range m.funcs {
-		fidx = append(fidx, vU32(uint32(len(m.imports)+i)))
+		fidx = append(fidx, vU32(uint32(nFuncImports+i)))
 	}
 	out = append(out, vSection(3, vVec(fidx...))...)
 	if m.tableMin >= 0 && (m.tableMin > 0 || len(m.elems) > 0) {
-		out = append(out, vSection(4, vVec(append([]byte{0x70, 0x00}, vU32(uint32(m.tableMin))...)))...)
+		tmax := -1
+		if m.tableMax > 0 {
+			tmax = m.tableMax
+		}
+		out = append(out, vSection(4, vVec(append([]byte{0x70}, vLimits(uint32(m.tableMin), tmax)...)))...)
 	}
 	if m.hasMem {
-		lim := append([]byte{0x01}, vU32(m.memMin)...)
-		lim = append(lim, vU32(m.memMax)...)
+		lim := vLimits(m.memMin, int(m.memMax))
+		if m.memNoMax {
+			lim = vLimits(m.memMin, -1)
+		}
 		out = append(out, vSection(5, vVec(lim))...)
 	}
 	if len(m.globals) > 0 {
@@ -121,8 +161,12 @@ func (m *verifModule) encode() []byte {
 	for i, f := range m.funcs {
 		if f.export != "" {
 			e := append(vName(f.export), 0x00)
-			exps = append(exps, append(e, vU32(uint32(len(m.imports)+i))...))
+			exps = append(exps, append(e, vU32(uint32(nFuncImports+i))...))
 		}
+	}
+	for _, x := range m.exports {
+		e := append(vName(x.name), x.kind)
+		exps = append(exps, append(e, vU32(x.index)...))
 	}
 	if len(exps) > 0 {
 		out = append(out, vSection(7, vVec(exps...))...)
@@ -136,6 +180,9 @@ func (m *verifModule) encode() []byte {
 		e = append(e, vVec(fi...)...)
 		out = append(out, vSection(9, vVec(e))...)
 	}
+	if m.hasStart {
+		out = append(out, vSection(8, vU32(uint32(nFuncImports+m.startFn)))...)
+	}
 	var codes [][]byte
 	for _, f := range m.funcs {
 		var loc [][]byte
@@ -148,6 +195,12 @@ func (m *verifModule) encode() []byte {
 		codes = append(codes, vBytes(c))
 	}
 	out = append(out, vSection(10, vVec(codes...))...)
+	if m.dataAt != nil {
+		seg := append([]byte{0x00}, m.dataAt...)
+		seg = append(seg, 0x0b)
+		seg = append(seg, vBytes(m.data)...)
+		out = append(out, vSection(11, vVec(seg))...)
+	}
 	return out
 }
 
